@@ -342,6 +342,10 @@ class EventMixin (object):
     handler = handlerOrEID
 
     altered = False
+    # Lists we replace are kept until we return: dropping one can release the
+    # last reference to an owner of weak handlers, whose cleanup changes the
+    # table while we still hold (and would write back) a stale list.
+    replaced = []
     if type(handler) == tuple:
       # It's a type/eid pair
       if eventType == None: eventType = handler[0]
@@ -358,6 +362,7 @@ class EventMixin (object):
           l = len(handlers)
           self._eventMixin_handlers[event] = [x for x in handlers
                                               if x[3] != handler]
+          replaced.append(handlers)
           altered = altered or l != len(self._eventMixin_handlers[event])
       else:
         handlers = self._eventMixin_handlers[eventType]
@@ -372,6 +377,7 @@ class EventMixin (object):
           l = len(handlers)
           self._eventMixin_handlers[event] = [x for x in handlers
                                               if x[1] != handler]
+          replaced.append(handlers)
           altered = altered or l != len(self._eventMixin_handlers[event])
       else:
         handlers = self._eventMixin_handlers[eventType]
